@@ -104,7 +104,14 @@ def check_proposal(impl, P, exprs, in_shapes, in_ids, p):
         problems.append(f'the tree in memory differs from what a reader parses from the written file (leaves that are not single tokens: {bad[:3]})')
     # declarations: fresh, and before first use
     if s.fresh_vars and res is not exprs:
-        already = set(plain(n_) for n_ in declared_names(in_shapes))
+        # a declared, defined or bound name -- or any other token of the input (a :named label, a match pattern, ...)
+        # (symbols only: no keywords, literals, numerals, comments, nothing inside set-info/set-option/set-logic/echo -- a
+        # declaration of such a name captures nothing)
+        def symbol_like(x):
+            return not (x[:1] in ';:"#' or x[:1].isdigit() or x in ('(', ')'))
+        already = set(plain(n_) for n_ in declared_names(in_shapes)) | set(
+            plain(x) for sh_ in in_shapes if not (isinstance(sh_, tuple) and sh_ and sh_[0] in ('set-info', 'set-option', 'set-logic', 'echo'))
+            for x in leaves(sh_, []) if symbol_like(x))
         newdecl = [impl.to_shape(v) for v in s.fresh_vars]
         dn = [d_[1] for d_ in newdecl if isinstance(d_, tuple) and len(d_) >= 2 and isinstance(d_[1], str)]
         for name in sorted(set(n_ for n_ in dn if dn.count(n_) > 1)):
@@ -136,6 +143,12 @@ def run(ctx):
     total = 0
     per_mut = {}
     extra_inputs = [
+        # further ways of putting a symbol into a script (F68): a :named label, a match pattern, a lambda binder, define-const, a
+        # formal behind a comment
+        '(set-logic ALL)\n(declare-const v (_ BitVec 8))\n(assert (! (= v #x00) :named _v))\n(check-sat)\n',
+        '(set-logic ALL)\n(declare-const v (_ BitVec 8))\n(define-fun f ((; the formal\n _v Int)) Int _v)\n(assert (= v #x01))\n(check-sat)\n',
+        '(set-logic ALL)\n(declare-const v (_ BitVec 8))\n(define-const _v Int 1)\n(assert (= v #x01))\n(check-sat)\n',
+        '(set-logic ALL)\n(declare-const v (_ BitVec 8))\n(assert ((lambda ((_v (_ BitVec 8))) _v) v))\n(check-sat)\n',
         # one symbol spelled with and without bars; a formal parameter with the derived name; a declaration with a comment inside
         '(set-logic QF_BV)\n(declare-const |_v| (_ BitVec 8))\n(declare-const v (_ BitVec 8))\n(assert (= (bvadd v |_v|) #x01))\n(check-sat)\n',
         '(set-logic ALL)\n(declare-const |s_prefix| String)\n(declare-const s String)\n(assert (str.contains s "a"))\n(assert (= s |s_prefix|))\n(check-sat)\n',
@@ -278,6 +291,9 @@ def run(ctx):
     import morecorr4
     morecorr3.run(ctx, impl, common.Model(), rng, ctexts if ctx.thorough else ctexts[:10])
     morecorr4.run(ctx, impl, common.Model(), rng, ctexts if ctx.thorough else ctexts[:10])
+    # ... and Model/Declared.v (dispatch 140-142): the tables behind is_declared_symbol, i.e. the freshness oracle of the models above
+    import declcorr
+    declcorr.run(ctx, impl, common.Model(), rng, ctexts if ctx.thorough else ctexts[:12], nfuzz=400 if ctx.thorough else 80)
     # TIE-H: the same in real runs -- the tables the freshness checks consult must describe the input a proposal is made for,
     # also in the middle of a ddmin round after an acceptance (sequential and parallel) and between hierarchical sweeps.  The
     # command accepts every candidate that keeps one symbol, so declaring steps are accepted and followed by further ones.
